@@ -19,20 +19,20 @@ func absPath(path string) string {
 	return path
 }
 
-// findProject creates new Project instance by finding a project which the given path belongs to.
-// A project must be a Git repository and have ".github/workflows" directory.
-func findProject(path string) (*Project, error) {
+// findProjectRoot finds the root directory of the project which the given path belongs to. A project
+// must be a Git repository and have ".github/workflows" directory.
+func findProjectRoot(path string) (string, bool) {
 	d := absPath(path)
 	for {
 		if s, err := os.Stat(filepath.Join(d, ".github", "workflows")); err == nil && s.IsDir() {
 			if _, err := os.Stat(filepath.Join(d, ".git")); err == nil { // Note: .git may be a file
-				return NewProject(d)
+				return d, true
 			}
 		}
 
 		p := filepath.Dir(d)
 		if p == d {
-			return nil, nil
+			return "", false
 		}
 		d = p
 	}
@@ -98,19 +98,23 @@ func NewProjects() *Projects {
 // At returns the Project instance which the path belongs to. It returns nil if no project is found
 // from the path.
 func (ps *Projects) At(path string) (*Project, error) {
+	// The root is always searched from the path. A known project which contains the path is not
+	// necessarily the answer since the path may belong to another repository nested in it.
+	root, ok := findProjectRoot(path)
+	if !ok {
+		return nil, nil
+	}
 	for _, p := range ps.known {
-		if p.Knows(path) {
+		if p.root == root {
 			return p, nil
 		}
 	}
 
-	p, err := findProject(path)
+	p, err := NewProject(root)
 	if err != nil {
 		return nil, err
 	}
-	if p != nil {
-		ps.known = append(ps.known, p)
-	}
+	ps.known = append(ps.known, p)
 
 	return p, nil
 }
